@@ -355,4 +355,117 @@ theorem renamed_is_temp (r : Roles) (fs : FS) (pre post : List Op) (t o : Path)
     rw [run_append, run_cons, hfz, hs]
     exact ⟨rfl, f, rfl, hft⟩
 
+/-! ### leftovers of an earlier run -/
+
+/-- two file systems agree on every path that is not a temporary or is already `known` -/
+def Agree (temps known : List Path) (a b : FS) : Prop :=
+  ∀ p, (temps.contains p = false ∨ known.contains p = true) → get a p = get b p
+
+theorem step_agree (temps known : List Path) (a b : FS) (op : Op) (h : Agree temps known a b)
+    (hr : (reads op).all (fun p => !temps.contains p || known.contains p) = true) :
+    Agree temps (known ++ resets op) (step a op) (step b op) := by
+  have hk : ∀ p, (temps.contains p = false ∨ (known ++ resets op).contains p = true) →
+      p ∉ resets op → get a p = get b p := by
+    intro p hp hn
+    apply h p
+    rcases hp with hp | hp
+    · exact Or.inl hp
+    · right
+      simp only [List.contains_eq_mem, List.mem_append, decide_eq_true_eq] at hp ⊢
+      rcases hp with hp | hp
+      · exact hp
+      · exact absurd hp hn
+  have hread : ∀ q, q ∈ reads op → get a q = get b q := by
+    intro q hq
+    rw [List.all_eq_true] at hr
+    have := hr q hq
+    apply h q
+    simp only [Bool.or_eq_true, Bool.not_eq_true'] at this
+    exact this
+  intro p hp
+  cases op with
+  | unlink q =>
+    simp only [step, get_upd]
+    by_cases hpq : p = q
+    · simp [hpq]
+    · simp only [hpq, if_false]; exact hk p hp (by simp [resets, hpq])
+  | create q =>
+    simp only [step, get_upd]
+    by_cases hpq : p = q
+    · simp [hpq]
+    · simp only [hpq, if_false]; exact hk p hp (by simp [resets, hpq])
+  | write q id =>
+    have hq := hread q (by simp [reads])
+    have hp' := hk p hp (by simp [resets])
+    simp only [step, ← hq]
+    cases get a q <;> simp [get_upd, hp'] <;> (split <;> simp_all)
+  | close q =>
+    have hq := hread q (by simp [reads])
+    have hp' := hk p hp (by simp [resets])
+    simp only [step, ← hq]
+    cases get a q <;> simp [get_upd, hp'] <;> (split <;> simp_all)
+  | openAppend q =>
+    have hq := hread q (by simp [reads])
+    have hp' := hk p hp (by simp [resets])
+    simp only [step, ← hq]
+    cases get a q <;> simp [get_upd, hp'] <;> (split <;> simp_all)
+  | openRead q => exact hk p hp (by simp [resets])
+  | rename x y =>
+    have hq := hread x (by simp [reads])
+    have hp' := hk p hp (by simp [resets])
+    simp only [step, ← hq]
+    cases get a x <;> simp [get_upd, hp'] <;> (split <;> simp_all)
+theorem run_agree (temps : List Path) :
+    ∀ (tr : List Op) (known : List Path) (a b : FS), freshFrom temps known tr = true →
+      Agree temps known a b → Agree temps known (run a tr) (run b tr) := by
+  intro tr
+  induction tr with
+  | nil => intro known a b _ h; exact h
+  | cons op rest ih =>
+    intro known a b hf h
+    simp only [freshFrom, Bool.and_eq_true] at hf
+    have h1 := step_agree temps known a b op h hf.1
+    have h2 := ih (known ++ resets op) (step a op) (step b op) hf.2 h1
+    intro p hp
+    apply h2 p
+    rcases hp with hp | hp
+    · exact Or.inl hp
+    · right
+      simp only [List.contains_eq_mem, List.mem_append, decide_eq_true_eq] at hp ⊢
+      exact Or.inl hp
+
+theorem get_eraseTemps (r : Roles) (fs : FS) (p : Path) :
+    get (eraseTemps r fs) p = if r.temps.contains p then none else get fs p := by
+  unfold eraseTemps
+  induction fs with
+  | nil => simp [get]
+  | cons e rest ih =>
+    obtain ⟨a, f⟩ := e
+    by_cases ha : r.temps.contains a = true
+    · simp only [List.filter_cons, ha, Bool.not_true, Bool.false_eq_true, if_false, ih, get]
+      have ha' : a ∈ r.temps := by simpa using ha
+      by_cases hap : a = p
+      · subst hap; simp [ha']
+      · simp [hap]
+    · simp only [Bool.not_eq_true] at ha
+      simp only [List.filter_cons, ha, Bool.not_false, if_true, get, ih]
+      have ha' : a ∉ r.temps := by simpa using ha
+      by_cases hap : a = p
+      · subst hap; simp [ha']
+      · simp [hap]
+
+theorem agree_eraseTemps (r : Roles) (fs : FS) :
+    Agree r.temps (absentTemps r fs) fs (eraseTemps r fs) := by
+  intro p hp
+  rw [get_eraseTemps]
+  rcases hp with hp | hp
+  · have hp' : p ∉ r.temps := by simpa using hp
+    simp [hp']
+  · simp only [absentTemps, List.contains_eq_mem, List.mem_filter, decide_eq_true_eq] at hp
+    have : get fs p = none := by
+      cases h : get fs p with
+      | none => rfl
+      | some f => simp [h] at hp
+    rw [this]; split <;> rfl
+
 end DclabModel.Cli
